@@ -32,7 +32,7 @@ Definition agree_print (m : res tree) (pr : option hobs) : bool :=
   | Some o =>
       match m, o with
       | Ret t', OTree l => list_eqb lbl_eqb (shown (obs_tree t')) l
-      | Raise _, OErr _ => true
+      | Raise e, OErr c => Nat.eqb (exn_code e) c
       | _, _ => false
       end
   end.
